@@ -102,6 +102,16 @@ CHECKS = {
             "Each run regenerates, from go/ssa, the stores to package-level state and the lock operations reachable from Lint*Ex and the registry read API and the kernel checks there are none / only read-mode ones. "
             "Explored: goroutines linting their own objects against shared registries while readers call the registry API, compared with sequential results; thorough builds the harness with -race and varies G and GOMAXPROCS.",
             "DESIGN.md 5/C10", "The Go memory model, scheduler and runtime locks are outside the model; only the schedules actually run are covered for them."),
+    "C17": (True, "Coq theorems (permutation invariance of any-offender rules, of the three-way label evaluation, of OID lookup) + in-Coq correspondence of the seven DNS-label lints + DER-level permutation of SAN entries and extensions over all lints",
+            "Proof (partial): a rule 'finding if some element offends, else NA if some element is unparseable, else pass' gives the same status on every permutation of the list; the seven DNS-label lints are modelled in that form and tied to the "
+            "code by correspondence (the public-suffix parser is an oracle); lookup by OID in a duplicate-free extension list is order independent; the pre-repair evaluation is refuted by a witness. Explored: all other lints - generated "
+            "certificates with 2-4 SAN names of every type in every order and corpus certificates with SAN and extension lists reversed/shuffled, all status vectors compared.",
+            "DESIGN.md 5/C17", "Re-ordering invalidates the signature: SelfSigned/ValidationLevel are carried over from the original when comparing."),
+    "C20": (True, "Coq theorems per pair family (label pairs, URI-host pair as written, mirror rules, limit pairs) + in-Coq correspondence (URI host, limits) + dynamic monitor of all 23 pairs on same-content certificates",
+            "Proof: the RFC/BR DNS-label variants agree whenever the common name is empty, an IP or one of the SAN names; the SAN and IAN URI-host rules (each modelled as written, url.Parse/IsFQDNOrIP as oracles) agree on every URI list - "
+            "and the pre-repair IAN copy is refuted; a limit lint's error implies its stricter companion's finding for every measured value; a mirror rule applied to equal fields gives equal answers. The other copies are tied to the code "
+            "only through the pair monitor: generated SAN=IAN, issuer=subject, both-scope, boundary-validity and name-length certificates plus the corpus where a pair's precondition holds; every pair must be exercised.",
+            "DESIGN.md 5/C20", "Most pair members are not modelled individually; agreement for them is explored, not proved."),
 }
 
 REASON_PENDING = "check not built yet in this session; planned (see DESIGN.md section 5)"
